@@ -123,6 +123,33 @@ fn incomplete(n: u8, have: usize) {
     std::mem::forget(r);
 }
 
+fn oversized_incomplete(n: u8, have: usize) {
+    let mut raw: [u8; 7] = kani::any();
+    raw[0] = n; // one-byte prefix declaring n payload bytes
+    let max: usize = kani::any();
+    kani::assume(max < n as usize);
+    let r = validate_rpc_limits(&raw[..have], max, kani::any(), kani::any());
+    kani::assert(r.is_err(), "C31: an over-limit frame split after its length prefix is not rejected (the decoder waits for, and buffers, the whole declared length)");
+    std::mem::forget(r);
+}
+
+/// (b') the same RPC under the split "prefix first, payload later": it is rejected as soon
+/// as its declared length is readable — under no split of the stream is an over-limit RPC
+/// waited for (Ok(false) would make the reader buffer up to the declared length, and a
+/// peer that announces a huge RPC and stalls would never be rejected)
+#[kani::proof]
+#[kani::unwind(16)]
+#[kani::stub(alloc::fmt::format, no_format)]
+fn oversized_frame_is_rejected_from_its_prefix() {
+    let mut have = 1;
+    while have <= 6 {
+        oversized_incomplete(6, have); // declared 6 > max, prefix + 0..=5 payload bytes buffered
+        have += 1;
+    }
+    oversized_incomplete(127, 1);
+    oversized_incomplete(127, 7);
+}
+
 /// (c) in-limit frame that has only partly arrived: wait for more bytes, never an error
 #[kani::proof]
 #[kani::unwind(16)]
